@@ -249,6 +249,62 @@ func genRAOrder(t *rapid.T) Case {
 	return c
 }
 
+// genHistory draws a history on ONE client: an early read meets a transient
+// fault on a mirror (and is served by falling back), then 1-3 more reads
+// follow after pauses long enough for every recorded back-off to run out.
+// From then on nobody is backing off and the plain order rule applies again.
+func genHistory(t *rapid.T) Case {
+	c := Case{Layer: "L1", Limit: rapid.IntRange(2, 5).Draw(t, "limit"), BlobLen: 16}
+	c.DelayInitMs = rapid.IntRange(1, 5).Draw(t, "dinit")
+	c.DelayMaxMs = c.DelayInitMs * rapid.IntRange(1, 2).Draw(t, "dmaxmul")
+	p := rapid.IntRange(0, 2).Draw(t, "prio")
+	c.Up = HostSpec{Prio: p, Has: "has"}
+	nm := rapid.IntRange(1, 3).Draw(t, "nmirrors")
+	hold := c.DelayMaxMs
+	for i := 0; i < nm; i++ {
+		h := HostSpec{Prio: p, Has: rapid.SampledFrom([]string{"has", "has", "lacks"}).Draw(t, "has")}
+		if rapid.IntRange(0, 3).Draw(t, "otherprio") == 0 {
+			h.Prio = rapid.IntRange(0, 2).Draw(t, "mprio")
+		}
+		if i == 0 || rapid.Bool().Draw(t, "fault") {
+			var l Letter
+			switch rapid.IntRange(0, 5).Draw(t, "fl") {
+			case 0:
+				l = Letter{K: "st", S: 502}
+			case 1:
+				l = Letter{K: "st", S: 500}
+			case 2:
+				l = Letter{K: "st", S: 429}
+			case 3:
+				l = Letter{K: "st", S: 429, RA: rapid.SampledFrom([]string{"0.004", "0.01"}).Draw(t, "ra")}
+				hold = max(hold, 10)
+			case 4:
+				l = Letter{K: "reset"}
+			default:
+				l = Letter{K: "st", S: 503}
+			}
+			h.Word = []Letter{l}
+			if rapid.IntRange(0, 3).Draw(t, "second") == 0 {
+				h.Word = append([]Letter{{K: "ok"}}, l) // the fault comes with the second read
+			}
+		}
+		c.Mirrors = append(c.Mirrors, h)
+	}
+	n := rapid.IntRange(2, 4).Draw(t, "reads")
+	m := rapid.SampledFrom([]string{"GET", "GET", "HEAD"}).Draw(t, "method")
+	for i := 0; i < n; i++ {
+		r := L1Req{Method: m, Target: rapid.SampledFrom([]string{"blob", "manifest"}).Draw(t, "target")}
+		if i > 0 {
+			r.GapMs = hold + rapid.IntRange(2, 6).Draw(t, "gap") // every back-off has run out
+			if rapid.IntRange(0, 5).Draw(t, "short") == 0 {
+				r.GapMs = 0 // ... or not yet
+			}
+		}
+		c.Reqs = append(c.Reqs, r)
+	}
+	return c
+}
+
 func gen(t *rapid.T) Case {
 	// (rapid favours small values: the larger share goes to the lower range)
 	switch k := rapid.IntRange(0, 99).Draw(t, "layer"); {
@@ -256,6 +312,8 @@ func gen(t *rapid.T) Case {
 		return genL2(t)
 	case k < 53:
 		return genRAOrder(t)
+	case k < 60:
+		return genHistory(t)
 	}
 	return genL1(t)
 }
